@@ -92,3 +92,10 @@ package kgo
 //@   site call storeVersions#0 assert [stores-the-table-built-from-this-response] arg1 == v && v == $newBrokerVersions0
 //@   site mapupdate int16#0 assert [stores-broker-max] val == key.MaxVersion && mapkey == key.ApiKey
 //@   site mapupdate int16#1 assert [stores-broker-min] val == key.MinVersion && mapkey == key.ApiKey
+
+// brokerCxn.init: whether the connection-opening ApiVersions request is written at all is decided by the user's
+// MaxVersions entry for ApiVersions itself (key 18): with MaxVersions set and key 18 absent nothing is requested.
+//@ func (cxn *brokerCxn) init(isProduceCxn bool, tries int) (err error)
+//@   prop C21
+//@   site call HasKey#0 assert [the-gate-asks-about-api-versions-itself] arg1 == 18
+//@   site call requestAPIVersions#0 assert [requested-only-when-the-user-max-allows-it] !reached($HasKey0) || $HasKey0
